@@ -29,7 +29,7 @@ Proof.
   rewrite (bind_ok _ _ _ _ _ (u8_enc 0 _ H0)). destruct p as [o]; cbn in H; subst; reflexivity.
 Qed.
 
-Lemma logout_nonzero_rejected p r : wf_logout p -> lo_options p <> 0 -> dec_logout (enc_logout_body p ++ r) = PErr 2.
+Lemma logout_nonzero_rejected p r : wf_logout p -> lo_options p <> 0 -> dec_logout (enc_logout_body p ++ r) = PErr 2 r.
 Proof.
   intros H Hn. unfold dec_logout, enc_logout_body. rewrite Z.mod_small by exact H.
   rewrite (bind_ok _ _ _ _ _ (u8_enc _ _ H)). destruct (Z.eqb_spec (lo_options p) 0) as [E|E]; [contradiction|reflexivity].
